@@ -34,6 +34,16 @@ def selection_case(draw):
         cut = draw(st.integers(1, len(codes))) if len(codes) > 1 else 1
         lst = list(codes[:cut]) + ["!" + c for c in codes[cut:]]
         lst = list(draw(st.permutations(lst)))
+    # now and then: a code listed twice, a code both named and excluded, a code that is not in the table (all well-defined by the
+    # documented rule: a list whose codes all carry '!' excludes, any other list runs exactly the plain codes it names - once each)
+    quirk = draw(st.sampled_from(["none", "none", "none", "duplicate", "named_and_excluded", "unknown_code"]))
+    if lst and quirk == "duplicate":
+        lst = lst + [draw(st.sampled_from(lst))]
+    elif lst and quirk == "named_and_excluded":
+        plain = [x for x in lst if "!" not in x]
+        lst = lst + (["!" + draw(st.sampled_from(plain))] if plain else [draw(st.sampled_from(lst)).replace("!", "")])
+    elif lst and quirk == "unknown_code":
+        lst = lst + [("!" if all("!" in x for x in lst) else "") + "XXQ"]
     frac = st.sampled_from([0.0, 1.0, 1.0, 0.999999, 1.000001, 0.5, 2.0]) | st.floats(0, 3)
     fr = draw(st.lists(frac, min_size=len(isos), max_size=len(isos)))
     # any column of the input table can be overridden from the scenario file for every country of the run - the population too
